@@ -39,3 +39,62 @@ def readCacheFirst (atCache atFiles : St) : List W := atCache.cache ++ atCache.s
 def readFilesFirst (atFiles atCache : St) : List W := atFiles.files ++ atCache.cache ++ atCache.snap
 
 end InfluxVerif.Sched
+
+namespace InfluxVerif.Sched
+
+/-! ### concurrent first writes to a new field (tsdb/shard.go: validateSeriesAndFields,
+createFieldsAndMeasurements, MeasurementFields.CreateFieldIfNotExists) -/
+
+abbrev Ty := Nat      -- a field type
+
+inductive Pc
+  | start       -- nothing done yet
+  | validated   -- the field validator found no conflict
+  | toCreate    -- the field did not exist at the second look: it is in fieldsToCreate
+  | ready       -- field exists (or was created): the value goes to the engine
+  | done        -- value stored
+  | rejected    -- the write failed with a field type conflict
+  deriving Repr, DecidableEq
+
+structure Writer where
+  ty : Ty
+  pc : Pc := .start
+  deriving Repr
+
+structure FSt where
+  field : Option Ty := none       -- the new field's type, once created
+  stored : List Ty := []          -- the types of the values accepted so far
+  ws : List Writer := []
+  deriving Repr
+
+/-- one atomic step of writer `w`; `recheck` = the second look compares the type (the repaired
+code) or only tests existence (the pinned code) -/
+def wstep (recheck : Bool) (field : Option Ty) (w : Writer) : Option Ty × Option Ty × Writer :=
+  -- returns (new field, value stored now, writer)
+  match w.pc with
+  | .start =>
+    match field with
+    | some t => (field, none, { w with pc := if t = w.ty then .validated else .rejected })
+    | none => (field, none, { w with pc := .validated })
+  | .validated =>
+    match field with
+    | some t => (field, none, { w with pc := if recheck && t != w.ty then .rejected else .ready })
+    | none => (field, none, { w with pc := .toCreate })
+  | .toCreate =>
+    match field with
+    | some t => (field, none, { w with pc := if t = w.ty then .ready else .rejected })
+    | none => (some w.ty, none, { w with pc := .ready })
+  | .ready => (field, some w.ty, { w with pc := .done })
+  | .done => (field, none, w)
+  | .rejected => (field, none, w)
+
+def fstep (recheck : Bool) (s : FSt) (i : Nat) : FSt :=
+  match s.ws[i]? with
+  | none => s
+  | some w =>
+    let (f, v, w') := wstep recheck s.field w
+    { field := f, stored := (match v with | some t => t :: s.stored | none => s.stored), ws := s.ws.set i w' }
+
+def frun (recheck : Bool) (s : FSt) (sched : List Nat) : FSt := sched.foldl (fstep recheck) s
+
+end InfluxVerif.Sched
